@@ -542,13 +542,35 @@ pub fn run_case(id: &str, inp: McInput, plan: &[RunSpec], pool: &mut Pool, z3arg
         ));
     }
     runs.push(')');
+    // the loop itself, against a recording solver that answers "unsat" to everything
+    let ca = stats.counters.get("loop_recordings").copied().unwrap_or(0) % 2 == 0;
+    let indiv = (stats.counters.get("loop_recordings").copied().unwrap_or(0) / 2) % 2 == 0;
+    stats.inc("loop_recordings");
+    let mut rec = crate::c04::Recorder::new(ca);
+    let loop_res = guarded(|| bmc(&mut ctx, &mut rec, &sys, false, indiv, k));
+    let mut loop_txt = format!("(loop (check-assuming {}) (mode {}) ", if ca { "yes" } else { "no" }, if indiv { "indiv" } else { "joint" });
+    match loop_res {
+        Ok(Ok(ModelCheckResult::Success)) => {
+            loop_txt.push_str("(events");
+            for c in rec.cmds.iter() {
+                if matches!(c, crate::c04::RCmd::SetLogic(_)) {
+                    continue;
+                }
+                loop_txt.push(' ');
+                loop_txt.push_str(&crate::c04::dump_cmd(&ctx, c));
+            }
+            loop_txt.push_str("))");
+        }
+        Ok(_) => loop_txt.push_str("(unexpected))"),
+        Err(m) => loop_txt.push_str(&format!("(panic {}))", quote(&format!("{m} @ {}", last_panic_loc())))),
+    }
     for f in features.iter() {
         stats.bump("features", f);
     }
     stats.bump("k", &format!("{k}"));
     stats.bump("bads", &format!("{}", sys.bad_states.len()));
     stats.bump("constraints", &format!("{}", sys.constraints.len()));
-    (format!("(case {id} {sys_txt} {named} {names} (k {k}){simp_txt} {runs})"), any_fail)
+    (format!("(case {id} {sys_txt} {named} {names} (k {k}){simp_txt} {loop_txt} {runs})"), any_fail)
 }
 
 pub const Z3_ARG_SETS: [&str; 6] = [
